@@ -1025,7 +1025,7 @@ def plan(tier, base_seed) -> Plan:
                     "params": {"mode": "enum", "phase": phase, "kinds": kinds, "variant": v, "alt": alt,
                                "via": vias[(i // 3) % 4], "vary": True}}
         j = i - n_enum
-        if j >= n_seeded - 2:
+        if n_seeded - 2 <= j < n_seeded:
             v_ = ["plain", "otel_rec"][j - (n_seeded - 2)]
             return {"id": "real-loopback-%s" % v_, "seed": 0, "params": {"mode": "real_loopback", "variant": v_}}
         return {"id": "seeded-%d" % j, "seed": derive_seed(base_seed, PROPERTY, "seeded", j),
